@@ -13,4 +13,5 @@ import (
 	_ "verifmc/checks/c16"
 	_ "verifmc/checks/c17"
 	_ "verifmc/checks/c18"
+	_ "verifmc/checks/c19"
 )
